@@ -186,8 +186,8 @@ func TestC18(t *testing.T) {
 	ev.Rule(id, "the real binary in a fresh process per configuration on a probe module with planted violations (one per code in u/u.go, in u/u_test.go, u/gen_z.go, testdata/q, vendorx/r): the grid {flag absent, empty, value} x {env unset, empty, value} per option (bool flag: absent / bare / =spelling) with values from all boolean spellings (any case, blanks, t, T, 1, yes, on, y, 2, ...), lists with blanks / empty items / mixed case / tokens matching file names and directories, and rapid-generated environment strings; GOGREEMENT_ENV_ONLY unset; a sample through go vet -vettool. oracle = restated resolution (flag > env-if-set > default) + list/bool parsing + reference skip predicate + reference code matcher => expected set of planted-violation ids; exit status must be 0. non-trivial = flag and env both given and resolving differently, or env set-but-empty, or a list needing trimming / case folding / empty-item dropping; distinct by configuration")
 	boolEnv := []string{"true", "TRUE", "True", "tRuE", " true ", "\ttrue\n", "1", " 1", "t", "T", "yes", "YES", " Yes ", "on", "On", "ON", "y", "Y", "2", "0", "false", "FALSE", "off", "no", " ", "enabled", "tru", "01", "truee", "ye s", "+1", "1.0", " true"}
 	boolFlag := []string{"true", "false", "1", "0", "t", "f", "T", "F", "TRUE", "FALSE", "True", "False"}
-	pathVals := []string{"testdata", "gen_", "vendorx", "testdata,gen_", " gen_ , vendorx ", "gen_,,vendorx,", "nomatch", "_test.go", "u_test", "u/u.go", "q.go", "TESTDATA", "Gen_", "r/r", ",", " , ", "testdata/q", "vendorx/r/r.go", "/u/", "zzz,yyy"}
-	checkVals := []string{"IMM", "imm", "Imm01", "CTOR,TONL", " pkgo , impl03 ", "ALL", "all", "IMM01,IMM02,IMM03,IMM04", "ZZZ", "IM", "IMM0", ",", "ctor01,,ctor03,", "tonl02 ,PKGO", "Impl", "*", "IMM 01"}
+	pathVals := []string{"testdata", "gen_", "vendorx", "testdata,gen_", " gen_ , vendorx ", "gen_,,vendorx,", "nomatch", "_test.go", "u_test", "u/u.go", "q.go", "TESTDATA", "Gen_", "r/r", ",", " , ", "testdata/q", "vendorx/r/r.go", "/u/", "zzz,yyy", " ", "\t", "   ", " gen_"}
+	checkVals := []string{"IMM", "imm", "Imm01", "CTOR,TONL", " pkgo , impl03 ", "ALL", "all", "IMM01,IMM02,IMM03,IMM04", "ZZZ", "IM", "IMM0", ",", "ctor01,,ctor03,", "tonl02 ,PKGO", "Impl", "*", "IMM 01", " ", "\t", "  imm"}
 	fuzzEnv := rapid.StringOfN(rapid.RuneFrom([]rune("abcIMTOPKGLtrue10,; \t./_-*%$=\"'\\éß日")), 0, 24, -1)
 	vetBudget := scale(6, 120)
 	vetN := 0
